@@ -148,6 +148,19 @@ def run(family, tier, seed, prop, only=None, id_regex=None):
             base = dict(prop=prop, engine="S", functions=funcs, bounds=m["bounds"],
                         assumptions=m["assumptions"], sample=m["sample"])
             if m["closed"] and m["closed"] not in ("syntactic", "normal-form"):
+                if m["id"].endswith(".panic"):
+                    # The symbolic run of this group panicked. If the same generic group, instantiated at
+                    # GoldilocksField on pseudo-random concrete inputs, panics as well, the code under
+                    # test panics on a concrete valid input: a violation, reproduced natively.
+                    try:
+                        ok, model, out = _replay(family, tier, m["id"], {}, outdir, tries=3, seed=seed)
+                    except Exception as e:  # noqa
+                        ok, model, out = False, {}, "replay failed: %r" % (e,)
+                    if ok:
+                        rp = _write_replay(prop, family, tier, m["id"], model)
+                        return common.ob(m["id"], verdict="violated", solver="native run (no query: the symbolic execution itself panicked)",
+                                         detail="%s; reproduced natively on concrete inputs: %s" % (m["closed"], out[-300:]),
+                                         replay=rp, finding_key=m["finding_key"], nontrivial=False, **base)
                 return common.ob(m["id"], verdict="inconclusive", detail=m["closed"], nontrivial=False, **base)
             if m["closed"] in ("syntactic", "normal-form"):
                 # The encoder's preprocessing (normal form, GF(p) row reduction) already reduced every
